@@ -2,6 +2,7 @@
    Model: Node/Node.v — receive_message_from_read_half + the receiver task as on_frame (one frame body), route_message
    as route, and the receiver's exit conditions in step; after fix commit 375429f. *)
 From EDP Require Import Base.Bytes Term.Term Order.Cmp Codec.Decode Dist.Control Dist.Receive Node.Node Node.NodeFacts.
+From EDP Require Dist.ReceiveTimed.
 Open Scope N_scope.
 
 (* the connection is deregistered only when the peer closes the stream or breaks framing *)
@@ -46,5 +47,27 @@ Example C19_exit_and_monitor_exit_routed :
   let st2 := route st1 (CMsg 21 [(7, TPid them); (2, TPid me); (8, r); (3, TAtom [100])]) None in
   map pevents (n_procs st2) = [[MExit them (TAtom [107]); MMonitorExit them r (TAtom [100])]].
 Proof. vm_compute. reflexivity. Qed.
+
+(* ---- "quiet periods during which the peer keeps ticking": the receiver's clock (Dist/ReceiveTimed.v) ----
+   every wait — for a length prefix, for a body — has its own deadline T and a tick ends a wait; there is no deadline
+   across frames *)
+Theorem C19_no_deadline_across_frames : forall T cfg l, forallb (ReceiveTimed.prompt T) l = true ->
+  ReceiveTimed.task_run T cfg l = ReceiveTimed.task_untimed cfg (map ReceiveTimed.body_of l).
+Proof. exact ReceiveTimed.no_deadline_across_frames. Qed.
+
+(* any number of ticks, each before its own deadline, however long they take together, changes nothing *)
+Theorem C19_ticks_keep_the_receiver_alive : forall T cfg ws l, forallb (fun w => w <? T) ws = true ->
+  ReceiveTimed.task_run T cfg (map ReceiveTimed.tick ws ++ l) = ReceiveTimed.task_run T cfg l.
+Proof. exact ReceiveTimed.ticks_keep_it_alive. Qed.
+
+(* a wait that lasts T ends the receiver (the peer neither sent nor ticked): nothing after it is routed *)
+Theorem C19_a_silent_wait_stops : forall T cfg wp wb body r, T <= wp ->
+  ReceiveTimed.task_run T cfg (ReceiveTimed.AFrame wp wb body :: r) = ([], ReceiveTimed.STimeout).
+Proof. exact ReceiveTimed.a_silent_wait_stops. Qed.
+
+Example C19_an_hour_of_ticks : forall cfg body,
+  ReceiveTimed.task_run 10000 cfg (map ReceiveTimed.tick (repeat 1000 3600) ++ [ReceiveTimed.AFrame 5 5 body]) =
+  ReceiveTimed.task_run 10000 cfg [ReceiveTimed.AFrame 5 5 body].
+Proof. exact ReceiveTimed.an_hour_of_ticks. Qed.
 
 Check C19_disconnect_only_on_close_or_framing.
